@@ -90,6 +90,23 @@ pub enum CirTreeNodeIterator<
     NonLeaf(N),
 }
 
+// std methods a "branchless" rewrite of compare_position reaches for (0 hits on /repo), with their REAL
+// contracts, so that such an edit is judged by the labels below instead of being refused by the front end:
+// `iN::signum` = -1 / 0 / 1 by sign (total, no overflow); `u32::wrapping_sub` has a vstd specification
+// (difference mod 2^32); `X.wrapping_sub(Y) as i32` is the two's-complement reinterpretation of the u32
+// (Verus leaves an out-of-range exec cast unspecified, so the cast is routed through `u32_as_i32`).
+pub assume_specification[i8::signum](x: i8) -> (r: i8)
+    ensures r == (if x > 0 { 1i8 } else if x < 0 { -1i8 } else { 0i8 });
+pub assume_specification[i32::signum](x: i32) -> (r: i32)
+    ensures r == (if x > 0 { 1i32 } else if x < 0 { -1i32 } else { 0i32 });
+pub assume_specification[i64::signum](x: i64) -> (r: i64)
+    ensures r == (if x > 0 { 1i64 } else if x < 0 { -1i64 } else { 0i64 });
+/// `x as i32` for `x: u32` (Rust reference: integer casts between same-size types are a no-op on the bits)
+#[verifier::external_body]
+fn u32_as_i32(x: u32) -> (r: i32)
+    ensures r as int == (if x < 0x8000_0000u32 { x as int } else { x as int - 0x1_0000_0000 }),
+{ x as i32 }
+
 fn compare_position(chrom1: u32, chrom1_base: u32, chrom2: u32, chrom2_base: u32) -> (r: i8)
     ensures
         
